@@ -236,6 +236,8 @@ pub struct Ins {
 pub struct Upd {
     pub with: Option<With>,
     pub table: String,
+    /// alias of the target table (`UPDATE t AS g ..`)
+    pub alias: Option<String>,
     pub sets: Vec<(String, X)>,
     pub from: Vec<From_>,
     pub wheres: Vec<X>,
@@ -248,6 +250,8 @@ pub struct Upd {
 pub struct Del {
     pub with: Option<With>,
     pub table: String,
+    /// alias of the target table (`DELETE FROM t AS g ..`)
+    pub alias: Option<String>,
     pub wheres: Vec<X>,
     pub orders: Vec<Ord_>,
     pub limit: Option<u64>,
